@@ -86,8 +86,8 @@ CLAIMED = {
   "L<=4 for the sequence job; concurrent[5 variants]: operations of different actors racing (two first subscribers, subscribe vs the last subscriber leaving, two publishers) under every schedule with <= P preemptions (quick 2, thorough 3) with the race detector; up to 100 subscribers of one type.",
   "DESIGN.md §3 C19"),
  "C10": ("symgo", "model_checking", TECH_P,
-  "Bounded scenario set on a LIVE mini system (real System, root guard actor, Contexts, UnboundedMailbox and consumer goroutines, eventStream, Future): 2-3 goroutines call ActorSystem.ActorOf/Tell/Ask/Kill/FindActor, event-stream Subscribe/Publish, Future Result/Close/PipeTo and share one ActorRef while actors are spawned, fail (supervised), reply and terminate. Every schedule with at most P preemptions (quick 1, thorough 2) at sync / sync/atomic / channel / go operations is executed on the real SSA with a vector-clock happens-before race detector over every load, store and map access: no data race, no panic/fatal, no deadlock, actor tree consistent at quiescence, same name spawned concurrently wins once, concurrent Asks each get a reply.",
-  "Ten fixed scenarios, not the open set of call sites; preemption bound P relative to a FIFO scheduler at blocking points; plain accesses between sync operations are not schedule points (races are still detected by happens-before, independent of the schedule point granularity); remoting and cluster are not started; struct-level vs field-level conflicts and accesses inside engine-modelled std functions are not tracked (can only hide a race). Found and repaired: concurrent map writes on the root's children map (fix 8d6473b).",
+  "Bounded scenario set (13 scenarios) on a LIVE mini system (real System, root guard actor, Contexts, UnboundedMailbox and consumer goroutines, eventStream, Future): 2-3 goroutines call ActorSystem.ActorOf/Tell/Ask/Kill/FindActor, event-stream Subscribe/Publish, Future Result/Close/PipeTo and share one ActorRef while actors are spawned, fail (supervised), reply and terminate. Every schedule with at most P preemptions (quick 1, thorough 2) at sync / sync/atomic / channel / go operations is executed on the real SSA with a vector-clock happens-before race detector over every load, store and map access: no data race, no panic/fatal, no deadlock, actor tree consistent at quiescence, same name spawned concurrently wins once, concurrent Asks each get a reply.",
+  "Thirteen fixed scenarios (plus the mailbox ring under concurrent producers and the live mailbox), not the open set of call sites; preemption bound P relative to a FIFO scheduler at blocking points; plain accesses between sync operations are not schedule points (races are still detected by happens-before, independent of the schedule point granularity); remoting and cluster are not started; struct-level vs field-level conflicts and accesses inside engine-modelled std functions are not tracked (can only hide a race). Found and repaired: concurrent map writes on the root's children map (fix 8d6473b), an actor spawned during Stop surviving the stop (fix 3138e01).",
   "DESIGN.md §9.6"),
  "C18": ("symgo", "model_checking", "bounded symbolic execution of go/ssa (own interpreter, z3): the real NodeActors of 2-3 live systems run in the interpreter over in-memory links with harness-fired timers and a virtual clock; solver-chosen fault (none / crash of a non-seed node / crash and restart); counterexamples confirmed by solver-free concrete re-execution in the interpreter",
   "Bounded gossip scenarios on the real code (join through the seed via Ask, gossip rounds, MergeFromWithOptions, failure detection, ComputeLeaderAddr, the real wire codec for every cluster message between the nodes): after the faults stop and R rounds, every running node holds exactly the running nodes, all compute the same leader and exactly one considers itself leader, a restarted node is present with a higher generation, a quiet healthy cluster announces nothing, further rounds change nothing. Two genuine defects found: the idle-cluster flapping (fixed, 924fe84) and the never-removed crashed member (open known finding).",
